@@ -476,7 +476,10 @@ func (e *refEnv) call(n *rnode, cur any, sc *refScope) (any, int) {
 				}
 				return d, ecNone
 			}
-			if _, err := decimal128.Parse(s); err == nil || s == "" || s == "null" {
+			if s == "" || s == "null" {
+				return nil, ecNone // not numbers under any reading
+			}
+			if _, err := decimal128.Parse(s); err == nil {
 				return nil, ecUnspecified // text the decimal library accepts although it is not a JSON number
 			}
 			return nil, ecNone
